@@ -192,6 +192,11 @@ TFireEffect(e) ==
            \* the harness plays it with close() on the peer: now and then its close_notify still gets out
            /\ peerAlive' = FALSE /\ alertIn' \in BOOLEAN
            /\ UNCHANGED <<cl, handles, iceT, sock, abortIn, shutdownIn, calls>>
+      [] e \in {"PeerSctpAbort", "PeerSctpShutdown"} ->
+           \* ... and the harness's peer closes itself shortly after having sent the chunk
+           /\ peerAlive' = FALSE /\ alertIn' \in BOOLEAN
+           /\ abortIn' = (e = "PeerSctpAbort") /\ shutdownIn' = (e = "PeerSctpShutdown")
+           /\ UNCHANGED <<cl, handles, iceT, sock, calls>>
       [] OTHER -> Effect(e)
 
 TFire ==
